@@ -8,6 +8,10 @@ def timeStep (f : List String) : String :=
     match p.toNat?, g.toInt?, r.toNat? with
     | some p, some g, some r => toString (timeOfRoundM p g r)
     | _, _, _ => "bad-op"
+  | ["date", p, g, r] =>     -- handler/http dateOfRound = time.Unix(TimeOfRound …)
+    match p.toNat?, g.toInt?, r.toNat? with
+    | some p, some g, some r => toString (timeOfRoundM p g r)
+    | _, _, _ => "bad-op"
   | ["next", now, p, g] =>
     match now.toInt?, p.toNat?, g.toInt? with
     | some now, some p, some g => let (a, b) := nextRoundM now p g; s!"{a} {b}"
